@@ -186,7 +186,8 @@ class WideM(Model):
                 self.delivered += 1
         if "write" in c:
             k = c["write"][0]["count"]
-            self.q.extend(c["write"][0]["data"][:k])
+            d = c["write"][0]["data"]  # a list (driven calls) or an index-keyed mapping (observed calls)
+            self.q.extend(d[i] for i in range(k))
             self.written += k
         if "clear" in c:
             self.cleared += len(self.q)
